@@ -79,7 +79,7 @@ type PKI struct {
 	SM2Inter, ClientViaInter                                     *Ident // issuing CA under SM2Root; client leaf under it (chain leaf+intermediate)
 	RSARoot, RSASrv                                              *Ident
 	ECRoot, ECSrv                                                *Ident
-	RSAClient                                                    *Ident
+	RSAClient, ECClient                                          *Ident
 	RootsSM2, RootsStd, RootsAll                                 *gx.CertPool
 }
 
@@ -221,6 +221,8 @@ func GetPKI() *PKI {
 		p.ECRoot = mkStd(valid(certOpt{cn: "EC Root", ca: true, ku: caKU}), &ek.PublicKey, ek, nil)
 		ek2, _ := ecdsa.GenerateKey(elliptic.P256(), rand.Reader)
 		p.ECSrv = mkStd(valid(certOpt{cn: "ec srv", ku: signKU, eku: srvEKU, dns: []string{ServerName}}), &ek2.PublicKey, ek2, p.ECRoot)
+		ek3, _ := ecdsa.GenerateKey(elliptic.P256(), rand.Reader)
+		p.ECClient = mkStd(valid(certOpt{cn: "ec client", ku: signKU, eku: cliEKU}), &ek3.PublicKey, ek3, p.ECRoot)
 		p.RootsSM2, p.RootsStd, p.RootsAll = gx.NewCertPool(), gx.NewCertPool(), gx.NewCertPool()
 		p.RootsSM2.AddCert(p.SM2Root.Cert)
 		p.RootsStd.AddCert(p.RSARoot.Cert)
